@@ -16,7 +16,7 @@ DEFAULT = dict(
     weights=dict(ssink=3, ssinkc=1, csink=2, const=0.3, never=0.2, map=4, mapto=0.5, filter=2, filteropt=0.5,
                  merge=4, orelse=1.5, snapshot=3, snapshot1=0.7, snapshotn=0.5, gate=1, hold=2.5, once=1, updates=1,
                  value=1, mapc=1.5, lift2=2, liftn=0.5, accum=1.5, collect=1, defer=0, split=0, switchs=0, switchc=0,
-                 sloop=0, cloop=0, router=0, holdlazy=0, switchdyn=0, accumlazy=0, collectlazy=0, route=0, switchlate=0, switchlatec=0, snaplazy=0, snapmapc=0, latelisten=0, deepdiamond=0, lift2d=0),
+                 sloop=0, cloop=0, router=0, holdlazy=0, switchdyn=0, accumlazy=0, collectlazy=0, route=0, switchlate=0, switchlatec=0, snaplazy=0, snapmapc=0, latelisten=0, deepdiamond=0, lift2d=0, handlerlisten=0, latehold=0, lateloop=0, switchnest=0, leafdrop=0),
     max_defer=1, leakcheck=False, malformed=False, values=(-5, 15), coalesce_sends=False,
 )
 
@@ -218,6 +218,27 @@ class Gen:
             if self.r.random() < 0.5 or self.ident.get(s, s) == self.ident.get(s2, s2):
                 base = self.fresh("s"); L.append(f"map {base} {s2} {self.small()}"); self.add_stream(base, set())
             L.append(f"latelisten {self.fresh('l')} {s} {base} {self.op()}")
+        elif kind in ("handlerlisten", "latehold", "lateloop") and s and s2 and not self.t(s) and not self.t(s2):
+            # a listener / a cell / a loop attached to a stream from inside the handler of another stream's first event; half
+            # of the time that handler is downstream of the stream built upon, which has then been visited when it runs
+            trig = s
+            if self.r.random() < 0.5:
+                trig = self.fresh("s"); L.append(f"map {trig} {s2} {self.small()}"); self.add_stream(trig, set())
+            l = self.fresh("l")
+            L.append(f"handlerlisten {l} {trig} {s2}" if kind == "handlerlisten" else
+                     f"latehold {l} {trig} {s2} {self.val()}" if kind == "latehold" else f"lateloop {l} {trig} {s2} {self.small()}")
+        elif kind == "leafdrop" and s and s2 and not self.t(s) and not self.t(s2):
+            # the handler that drops the leaf is up- or downstream of the leaf's source, or unrelated
+            trig = s
+            if self.r.random() < 0.4:
+                trig = self.fresh("s"); L.append(f"map {trig} {s2} {self.small()}"); self.add_stream(trig, set())
+            L.append(f"leafdrop {self.fresh('l')} {trig} {s2} {self.r.randint(0, 5)}")
+        elif kind == "switchnest" and c and c2 and s and c != c2 and not self.t(c) and not self.t(c2) \
+                and self.ustream.get(c, "u:" + c) != self.ustream.get(c2, "u:" + c2):
+            # a switch built by a mapping function (forced while the outer switch's own construction finishes)
+            cs = [self.S() for _ in range(r.randint(2, 3))]
+            if any(self.t(x) for x in cs): return False
+            n = self.fresh("s"); L.append(f"switchnest {n} {c} {c2} {' '.join(cs)}"); self.add_stream(n, set())
         elif kind == "switchlatec" and s and s2 and not self.t(s) and not self.t(s2):
             # cells built on demand (each on a fresh hold of the base) and switched to inside the transaction that built them
             base = s2
